@@ -80,6 +80,7 @@ fn real_main(args: &Args) -> i32 {
         "replay" => orch::cmd_replay(args),
         "run" => orch::cmd_run(args),
         "selftest" => orch::cmd_selftest(args),
+        "miri-batch" => orch::cmd_miri_batch(args),
         "flavour" => {
             println!("{}", flavour());
             0
